@@ -73,6 +73,9 @@ def verify_function(ex, con, prop=None):
     ex.prop = prop
     obligs = []
     info = dict(function="%s::%s" % (con.file, con.qual), paths=0, variants=[], unreached=None)
+    if getattr(con, "trusted_body", False):
+        info["assumed"] = "contract assumed at this level, body not verified"
+        return obligs, info
     try:
         node, ci = ex.repo.function(con.file, con.qual)
     except KeyError:
